@@ -456,3 +456,40 @@ Proof.
   unfold sac_step. cbn [fst lzfsc]. rewrite sac_wit_b_land, sac_wit_b_pass, sac_wit_b_eval.
   unfold sac_wit_b; sac_proj; runfold. lra.
 Qed.
+
+(** (a''), lztwm = 10 mm, one wet day from a state inside every individual store bound but with
+    adimc < uztwc - lztwm (reachable after a dry spell: the free-to-tension transfer of the land phase
+    raises uztwc without touching adimc).  The tension store fills (uztwc = 125), adimc = 35,
+    ratio = (35 - 125)/10 = -9 (no [ratio < 0 -> 0] guard), addro = 4 * 81 = 324 > pinc = 4,
+    adimc = 35 + 4 - 324 = -285; impervious runoff 97.49 mm from 29 mm of rain. *)
+Definition sac_wit_r : sac_par (T:=R) :=
+  {| lzpk := 0; lzsk := 0; uzk := 1; uztwm := 125; uzfwm := 75; lztwm := 10; lzfsm := 25;
+     lzfpm := 25; pfree := 6/100; rexp := 0; zperc := 40; side := 0; ssout := 0; pctim := 1/100;
+     adimp := 3/10; sarva := 0; rserv := 3/10; uh1 := 8/10; uh2 := 1/10; uh3 := 5/100; uh4 := 3/100; uh5 := 2/100 |}.
+
+Lemma sac_wit_r_land :
+  l_uztwc (sac_land sac_wit_r (sac_init sac_wit_r 100 0 0 0 0 10) (29, 0)) = 125 /\
+  l_v (sac_land sac_wit_r (sac_init sac_wit_r 100 0 0 0 0 10) (29, 0)) =
+  sac_pass sac_wit_r 125 1 4 (mk_inner 35 0 0 0 0 0 0 0 (29/100)).
+Proof.
+  unfold sac_wit_r. eval_land. split; [lra|].
+  unfold mk_inner. f_equal; try lra. apply sac_inner_ext; lra.
+Qed.
+
+Lemma sac_wit_r_pass :
+  sac_pass sac_wit_r 125 1 4 (mk_inner 35 0 0 0 0 0 0 0 (29/100)) = mk_inner (-285) 0 0 0 4 0 0 0 (9749/100).
+Proof. unfold sac_wit_r, mk_inner. eval_pass. eval_inc. Qed.
+
+Theorem sac_adimc_ratio_negative_refuted : exists p s0 s1 s2 s3 s4 s5 io, sac_ok p = true /\ io_nonneg io /\
+  10 <= lztwm p /\
+  0 <= s0 <= uztwm p /\ 0 <= s1 <= uzfwm p /\ 0 <= s2 <= lztwm p /\ 0 <= s3 <= lzfpm p /\
+  0 <= s4 <= lzfsm p /\ 0 <= s5 <= uztwm p + lztwm p /\
+  adimc (fst (sac_run p (sac_init p s0 s1 s2 s3 s4 s5) io)) < 0.
+Proof.
+  exists sac_wit_r, 100, 0, 0, 0, 0, 10, [(29, 0)].
+  split; [unfold sac_wit_r; sac_ok_solve|]. split; [repeat constructor; cbn; lra|].
+  unfold sac_run. rewrite run_fst_cons. cbn [run fst].
+  destruct sac_wit_r_land as [E1 E2]. rewrite sac_wit_r_pass in E2.
+  destruct (st6_step _ _ _ _ _ E1 E2) as (_ & _ & _ & E & _).
+  rewrite E. unfold sac_wit_r, mk_inner; sac_proj. lra.
+Qed.
